@@ -485,7 +485,15 @@ def chain_probs(rates, T):
 def occupancy_sample(cfg):
     import pg
     k = len(cfg["rates"]) + 1
-    m = get_model("CHAIN%d" % k)
+    if cfg.get("limits"):
+        # every compartment declared on [0, n0]: the declared ceiling is reached exactly when everybody sits in one
+        # compartment, and a step that lands ON a limit is a legal step
+        T_, TT_ = pg.Transition, pg.TransitionType
+        m = pg.model(state=[("X%d" % j, (0, int(cfg["n0"]))) for j in range(1, k + 1)], param=["r%d" % j for j in range(1, k)],
+                     transition=[T_(origin="X%d" % j, destination="X%d" % (j + 1), equation="r%d*X%d" % (j, j),
+                                    transition_type=TT_.T) for j in range(1, k)])
+    else:
+        m = get_model("CHAIN%d" % k)
     m.parameters = {"r%d" % (j + 1): float(r) for j, r in enumerate(cfg["rates"])}
     t0 = float(cfg.get("t0", 0.0))
     m.initial_values = ([int(cfg["n0"])] + [0] * (k - 1), np.float64(t0))
@@ -599,7 +607,7 @@ def stat_configs(ck, rng):
         T = float(rng.integers(2, 7)) / 4.0 / (sum(rates) / len(rates))
         # every other chain starts its clock away from zero (the law depends on the elapsed time only)
         chains.append(dict(kind="chain", rates=rates, n0=int(rng.integers(5, 21)), T=T, n=n_chain, seed=seed(),
-                           t0=[0.0, 4.0, -2.5, 100.0][len(chains) % 4]))
+                           t0=[0.0, 4.0, -2.5, 100.0][len(chains) % 4], limits=bool(len(chains) % 2 == 0)))
     sirs = []
     betas = ["1", "3/2", "2", "5/2", "3"]
     for j in range(ck.budget(2, 5)):
